@@ -170,31 +170,36 @@ Section JBody.
   Variable rect : nat -> value -> jres jv.
   Variable recd : nat -> jv -> jres value.
   Hypothesis Hrec : forall tid v, recv tid v = true ->
-    exists j, rect tid v = JOk j /\ is_jnull j = false /\ recd tid j = JOk (strip_unknown v).
+    exists j, rect tid v = JOk j /\ (is_jnull j = true -> mn_wkt (nm_msg nm tid) = 7) /\
+              recd tid j = JOk (strip_unknown v).
 
   Lemma json_elem_rt fd fn v :
     jvalid_elem nm recv fd fn v = true ->
     (f_kind fd = KS SkEnum -> enum_ok (nm_enum nm fn) = true) ->
+    (forall t, f_kind fd = KGrp t -> mn_wkt (nm_msg nm t) <> 7) ->
     exists j, json_elem cd o nm rect fd fn v = JOk j /\
               dec_elem cd nm recd fd fn j = JOk (strip_unknown v) /\
-              (is_jnull j = true -> f_kind fd = KS SkEnum /\ e_null (nm_enum nm fn) = true).
+              (is_jnull j = true ->
+               (f_kind fd = KS SkEnum /\ e_null (nm_enum nm fn) = true) \/
+               (exists t, f_kind fd = KMsg t /\ mn_wkt (nm_msg nm t) = 7)).
   Proof.
-    unfold jvalid_elem, json_elem, dec_elem. intros H He.
+    unfold jvalid_elem, json_elem, dec_elem. intros H He Hg.
     destruct (f_kind fd) as [sk|tid|tid] eqn:Ek; destruct v as [s|fs unk|k0 v0]; try discriminate.
     - destruct (json_scalar_rt cd Hb64 o (nm_enum nm fn) sk s H) as (j & Hj & Hd & Hn).
       { intros ->. apply He. reflexivity. }
       exists j. rewrite Hj, Hd. cbn [jbind]. split; [reflexivity|]. split; [reflexivity|].
-      intros Hnull. destruct (Hn Hnull) as [-> Hnl]. split; [reflexivity|exact Hnl].
+      intros Hnull. destruct (Hn Hnull) as [-> Hnl]. left. split; [reflexivity|exact Hnl].
     - destruct (Hrec tid _ H) as (j & Hj & Hnn & Hd). exists j. rewrite Hj. split; [reflexivity|]. split; [exact Hd|].
-      rewrite Hnn. discriminate.
+      intros Hnull. right. exists tid. split; [reflexivity|apply Hnn, Hnull].
     - destruct (Hrec tid _ H) as (j & Hj & Hnn & Hd). exists j. rewrite Hj. split; [reflexivity|]. split; [exact Hd|].
-      rewrite Hnn. discriminate.
+      intros Hnull. exfalso. apply (Hg tid eq_refl), Hnn, Hnull.
   Qed.
 
   Variable fps : list fpair.
   Hypothesis Hlook : forall p, In p fps -> lookup_name fps (json_name o (snd p)) = Some p.
   Hypothesis Henum : forall p, In p fps -> f_kind (fst p) = KS SkEnum -> enum_ok (nm_enum nm (snd p)) = true.
   Hypothesis Honeof : forall p, In p fps -> fn_inoneof (snd p) = false -> f_oneof (fst p) = None.
+  Hypothesis Hgrp : forall p, In p fps -> forall t, f_kind (fst p) = KGrp t -> mn_wkt (nm_msg nm t) <> 7.
 
   Definition jst_after (st : dstate) (fd : fdesc) (vs : list value) (emitted : bool) : dstate :=
     mkDS (match vs with [] => ds_fs st | _ => msg_fset (ds_fs st) (f_num fd) (svals vs) end)
@@ -209,15 +214,16 @@ Section JBody.
   Lemma json_entry_rt fd fn kk e :
     jvalid_entry nm recv fd fn kk e = true -> json_key_kind_ok kk = true ->
     (f_kind fd = KS SkEnum -> enum_ok (nm_enum nm fn) = true) ->
+    (forall t, f_kind fd = KGrp t -> mn_wkt (nm_msg nm t) <> 7) ->
     exists kv, json_entry cd o nm rect fd fn kk e = JOk kv /\
       exists k v, e = VEntry k v /\ dec_key kk (fst kv) = JOk k /\
                   dec_elem cd nm recd fd fn (snd kv) = JOk (strip_unknown v).
   Proof.
-    unfold jvalid_entry, json_entry. intros H Hkk He.
+    unfold jvalid_entry, json_entry. intros H Hkk He Hg.
     destruct e as [|?|k v]; try discriminate.
     apply andb_prop in H. destruct H as [Hk Hv].
     destruct (json_key_rt kk k Hk Hkk) as (name & Hname & Hdk).
-    destruct (json_elem_rt fd fn v Hv He) as (j & Hj & Hd & _).
+    destruct (json_elem_rt fd fn v Hv He Hg) as (j & Hj & Hd & _).
     exists (name, j). rewrite Hname. cbn [jbind]. rewrite Hj. cbn [jbind]. split; [reflexivity|].
     exists k, v. cbn [fst snd]. repeat split; assumption.
   Qed.
@@ -261,6 +267,7 @@ Section JBody.
   Proof.
     destruct p as [fd fn]. unfold fp_num. cbn [fst snd]. intros Hin Hval Hf11 Hfresh Hseen Hone.
     pose proof (Henum _ Hin) as He. cbn [fst snd] in He.
+    pose proof (Hgrp _ Hin) as Hg. cbn [fst snd] in Hg.
     pose proof (Hlook _ Hin : lookup_name fps (json_name o fn) = Some (fd, fn)) as Hl.
     unfold json_member. cbn [fst snd].
     assert (Hdm : forall j rest st1,
@@ -322,7 +329,7 @@ Section JBody.
               exists ms, (j <- json_elem cd o nm rect fd fn v ;; JOk [(json_name o fn, j)]) = JOk ms /\
                 forall rest, dec_members cd nm recd fps false (ms ++ rest) st =
                   dec_members cd nm recd fps false rest (jst_after st fd vs (match ms with [] => false | _ => true end))).
-    { intros v Evs' Hs Himp Hv. destruct (json_elem_rt fd fn v Hv He) as (j & Hj & Hd & Hn).
+    { intros v Evs' Hs Himp Hv. destruct (json_elem_rt fd fn v Hv He Hg) as (j & Hj & Hd & Hn).
       rewrite Hj. cbn [jbind]. eexists. split; [reflexivity|]. intros rest. cbn [app].
       erewrite Hdm; [reflexivity| |].
       - unfold dec_field. unfold is_sing in Hs.
@@ -336,8 +343,10 @@ Section JBody.
         destruct (f_card fd) eqn:Ecard; try discriminate; cbn [ds_oneofs ds_fs ds_seen]; rewrite Ho, Hd; cbn [jbind];
           try reflexivity.
         destruct (Himp eq_refl) as (s & -> & Hnz). cbn [strip_unknown]. rewrite Hnz. reflexivity.
-      - destruct (is_jnull j) eqn:En; [|reflexivity]. destruct (Hn eq_refl) as [Hk Hnl].
-        unfold null_is_value. rewrite Hk, Hnl. unfold is_sing in Hs. destruct (f_card fd); try discriminate; reflexivity. }
+      - destruct (is_jnull j) eqn:En; [|reflexivity]. unfold is_sing in Hs.
+        destruct (Hn eq_refl) as [[Hk Hnl]|(t & Hk & Hw)]; unfold null_is_value; rewrite Hk.
+        + rewrite Hnl. destruct (f_card fd); try discriminate; reflexivity.
+        + rewrite Hw. destruct (f_card fd); try discriminate; reflexivity. }
     unfold json_field_value.
     destruct (f_card fd) as [| | | | |kk kutf8 vdef] eqn:Ecard.
     - (* COpt *) destruct vs0; [|discriminate]. apply (Hsing v0 eq_refl); [unfold is_sing; rewrite Ecard; reflexivity|discriminate|exact Hval].
@@ -349,7 +358,7 @@ Section JBody.
     - (* CRep *)
       destruct (jmapM_ok (json_elem cd o nm rect fd fn)
                   (fun v j => dec_elem cd nm recd fd fn j = JOk (strip_unknown v)) vs) as (xs & Hxs & Hall).
-      { intros a Ha. rewrite forallb_forall in Hval. destruct (json_elem_rt fd fn a (Hval a Ha) He) as (j & Hj & Hd & _).
+      { intros a Ha. rewrite forallb_forall in Hval. destruct (json_elem_rt fd fn a (Hval a Ha) He Hg) as (j & Hj & Hd & _).
         exists j. split; assumption. }
       rewrite Hxs. cbn [jbind]. eexists. split; [reflexivity|]. intros rest. cbn [app].
       erewrite Hdm; [reflexivity| |reflexivity].
@@ -358,7 +367,7 @@ Section JBody.
     - (* CPacked *)
       destruct (jmapM_ok (json_elem cd o nm rect fd fn)
                   (fun v j => dec_elem cd nm recd fd fn j = JOk (strip_unknown v)) vs) as (xs & Hxs & Hall).
-      { intros a Ha. rewrite forallb_forall in Hval. destruct (json_elem_rt fd fn a (Hval a Ha) He) as (j & Hj & Hd & _).
+      { intros a Ha. rewrite forallb_forall in Hval. destruct (json_elem_rt fd fn a (Hval a Ha) He Hg) as (j & Hj & Hd & _).
         exists j. split; assumption. }
       rewrite Hxs. cbn [jbind]. eexists. split; [reflexivity|]. intros rest. cbn [app].
       erewrite Hdm; [reflexivity| |reflexivity].
@@ -369,7 +378,7 @@ Section JBody.
       destruct (jmapM_ok (json_entry cd o nm rect fd fn kk)
                   (fun e kv => exists k v, e = VEntry k v /\ dec_key kk (fst kv) = JOk k /\
                      dec_elem cd nm recd fd fn (snd kv) = JOk (strip_unknown v)) vs) as (es & Hes & Hall).
-      { intros a Ha. rewrite forallb_forall in Hval. apply json_entry_rt; [apply Hval, Ha|exact Hkk|exact He]. }
+      { intros a Ha. rewrite forallb_forall in Hval. apply json_entry_rt; [apply Hval, Ha|exact Hkk|exact He|exact Hg]. }
       rewrite Hes. cbn [jbind]. eexists. split; [reflexivity|]. intros rest. cbn [app].
       erewrite Hdm; [reflexivity| |reflexivity].
       unfold dec_field. rewrite Ecard. cbn [ds_fs ds_seen ds_oneofs]. rewrite Hfresh.
@@ -424,11 +433,13 @@ Section JMessage.
   Variable rect : nat -> value -> jres jv.
   Variable recd : nat -> jv -> jres value.
   Hypothesis Hrec : forall tid v, recv tid v = true ->
-    exists j, rect tid v = JOk j /\ is_jnull j = false /\ recd tid j = JOk (strip_unknown v).
+    exists j, rect tid v = JOk j /\ (is_jnull j = true -> mn_wkt (nm_msg nm tid) = 7) /\
+              recd tid j = JOk (strip_unknown v).
   Variable fps : list fpair.
   Hypothesis Hlook : forall p, In p fps -> lookup_name fps (json_name o (snd p)) = Some p.
   Hypothesis Henum : forall p, In p fps -> f_kind (fst p) = KS SkEnum -> enum_ok (nm_enum nm (snd p)) = true.
   Hypothesis Honeof : forall p, In p fps -> fn_inoneof (snd p) = false -> f_oneof (fst p) = None.
+  Hypothesis Hgrp : forall p, In p fps -> forall t, f_kind (fst p) = KGrp t -> mn_wkt (nm_msg nm t) <> 7.
   Hypothesis Hnd : NoDup (map fp_num fps).
   Variable fs : fields.
   Hypothesis Hchunks : forall k vs, In (k, vs) fs ->
@@ -468,7 +479,7 @@ Section JMessage.
       assert (Hnotdone : ~ In (fp_num p) (map fp_num done)).
       { rewrite map_app in Hnodup. cbn [map] in Hnodup. apply NoDup_remove_2 in Hnodup.
         intros Hin. apply Hnodup, in_or_app. left. exact Hin. }
-      destruct (json_member_rt cd Hb64 o nm recv rect recd Hrec fps Hlook Henum Honeof fs p st Hp) as (ms & Hms & Hdec).
+      destruct (json_member_rt cd Hb64 o nm recv rect recd Hrec fps Hlook Henum Honeof Hgrp fs p st Hp) as (ms & Hms & Hdec).
       + apply jfield_valid, Hp.
       + apply Hf11, Hp.
       + destruct (msg_fget (ds_fs st) (fp_num p)) eqn:E; [reflexivity|].
@@ -611,7 +622,6 @@ Section JMain.
   Variable nm : names.
   Variable lim : nat.
   Hypothesis Hschema : json_schema_ok S nm = true.
-  Hypothesis Hcore : json_core S nm = true.
 
   Lemma jchunks_of recv tid fs :
     forallb (jvalid_chunk nm recv (rt_fields S nm tid)) fs = true ->
@@ -621,6 +631,63 @@ Section JMain.
     intros H k vs Hin. rewrite forallb_forall in H. specialize (H _ Hin). unfold jvalid_chunk in H. cbn [fst snd] in H.
     destruct (rt_find (rt_fields S nm tid) k) as [q|] eqn:E; [|discriminate].
     destruct (rt_find_some _ _ _ E) as [H1 H2]. exists q. repeat split; assumption.
+  Qed.
+
+  (* the ordinary mapping of one message, for any decoder / encoder of the sub-messages *)
+  Lemma json_ordinary_rt recv rect recd
+    (Hrec : forall tid v, recv tid v = true ->
+       exists j, rect tid v = JOk j /\ (is_jnull j = true -> mn_wkt (nm_msg nm tid) = 7) /\
+                 recd tid j = JOk (strip_unknown v)) tid fs :
+    (tid < length S)%nat ->
+    (forall p, In p (rt_fields S nm tid) -> forall t, f_kind (fst p) = KGrp t -> mn_wkt (nm_msg nm t) <> 7) ->
+    msg_keys_sorted 0 fs = true ->
+    forallb (jvalid_chunk nm recv (rt_fields S nm tid)) fs = true ->
+    rt_oneofs_ok (rt_fields S nm tid) fs = true ->
+    (negb (true && o_emit_unpop o)
+     || forallb (fun p => negb (f11_shaped nm p) || has_num fs (fp_num p)) (rt_fields S nm tid)) = true ->
+    exists ms, json_members cd o S nm rect tid fs = JOk ms /\
+               dec_ordinary cd S nm recd tid false ms = JOk (VMsg (map sp fs) []).
+  Proof.
+    intros Hlt Hgrp Hs Hc Ho Hf11.
+    destruct (jschema_facts S nm Hschema o tid Hlt) as (Hnd & Hpos & Henum & Hlook & Honeof).
+    set (fps := rt_fields S nm tid) in *.
+    apply msg_keys_sorted_spec in Hs.
+    pose proof (jchunks_of recv tid fs Hc) as Hchunks. fold fps in Hchunks.
+    pose proof (rt_field_order_perm fps) as Hperm.
+    assert (Hf11' : forall p, In p fps -> msg_fget fs (fp_num p) = [] -> o_emit_unpop o = true -> f11_shaped nm p = false).
+    { intros p Hp Hget Hun. rewrite Hun in Hf11. cbn [andb negb orb] in Hf11.
+      rewrite forallb_forall in Hf11. specialize (Hf11 p Hp). unfold has_num in Hf11. rewrite Hget in Hf11.
+      rewrite orb_false_r in Hf11. apply negb_true_iff in Hf11. exact Hf11. }
+    destruct (jfields_rt cd Hb64 o nm recv rect recd Hrec
+                fps Hlook Henum Honeof Hgrp Hnd fs Hchunks Ho Hf11' (rt_field_order fps) [] (mkDS [] [] []))
+      as (mss & Hmss & Hdec).
+    { cbn [app]. eapply Permutation_NoDup; [apply Permutation_map, Permutation_sym, Hperm|exact Hnd]. }
+    { cbn [app]. intros p Hp. eapply Permutation_in; eassumption. }
+    { split; [|split].
+      - intros k Hk. cbn [ds_fs msg_fget] in Hk. congruence.
+      - intros k [].
+      - intros i []. }
+    exists (concat mss). split.
+    { unfold json_members. fold fps. rewrite Hmss. reflexivity. }
+    unfold dec_ordinary. fold fps. specialize (Hdec []). rewrite app_nil_r in Hdec. rewrite Hdec.
+    cbn [dec_members jbind]. rewrite (fold_jstep_fs cd o nm rect fs). cbn [ds_fs].
+    erewrite ins_all_pairs_eq; [reflexivity|exact Hnd|exact Hpos|exact Hs| |exact Hperm].
+    intros k vs Hin. destruct (Hchunks k vs Hin) as (p & Hp & Hk & Hv).
+    split; [eapply jvalid_field_nonempty, Hv|]. exists p. split; assumption.
+  Qed.
+
+  Hypothesis Hcore : json_core S nm = true.
+
+  Lemma core_wkt t : mn_wkt (nm_msg nm t) = 0 \/ mn_wkt (nm_msg nm t) = 9.
+  Proof.
+    destruct (Nat.lt_ge_cases t (length S)) as [Hlt|Hge].
+    - unfold json_core in Hcore. rewrite forallb_forall in Hcore.
+      assert (Hcw := Hcore t ltac:(apply in_seq; lia)). cbn zeta in Hcw.
+      apply orb_prop in Hcw. destruct Hcw as [E|E]; [left; apply N.eqb_eq, E|].
+      apply andb_prop in E. destruct E as [E _]. right. apply N.eqb_eq, E.
+    - left. unfold json_schema_ok, rt_schema_ok in Hschema.
+      apply andb_prop in Hschema. destruct Hschema as [H1 _]. apply andb_prop in H1. destruct H1 as [Hlen _].
+      apply Nat.eqb_eq in Hlen. unfold nm_msg. rewrite nth_overflow by lia. reflexivity.
   Qed.
 
   Theorem json_roundtrip_core : forall fuel tid v,
@@ -635,47 +702,26 @@ Section JMain.
     apply andb_prop in Hb. destruct Hb as [Hb Hf11]. apply andb_prop in Hb. destruct Hb as [Hb Ho].
     apply andb_prop in Hb. destruct Hb as [Hs Hc].
     change (strip_unknown (VMsg fs unk)) with (VMsg (map sp fs) []).
-    destruct (jschema_facts S nm Hschema o tid Hlt) as (Hnd & Hpos & Henum & Hlook & Honeof).
-    set (fps := rt_fields S nm tid) in *.
-    apply msg_keys_sorted_spec in Hs.
-    pose proof (jchunks_of (json_valid true (o_emit_unpop o) S nm f) tid fs Hc) as Hchunks. fold fps in Hchunks.
-    pose proof (rt_field_order_perm fps) as Hperm.
-    assert (Hf11' : forall p, In p fps -> msg_fget fs (fp_num p) = [] -> o_emit_unpop o = true -> f11_shaped nm p = false).
-    { intros p Hp Hget Hun. rewrite Hun in Hf11. cbn [andb negb orb] in Hf11.
-      rewrite forallb_forall in Hf11. specialize (Hf11 p Hp). unfold has_num in Hf11. rewrite Hget in Hf11.
-      rewrite orb_false_r in Hf11. apply negb_true_iff in Hf11. exact Hf11. }
-    destruct (jfields_rt cd Hb64 o nm (json_valid true (o_emit_unpop o) S nm f) (to_json_msg cd o S nm lim f) (of_json_msg cd S nm f) IH
-                fps Hlook Henum Honeof Hnd fs Hchunks Ho Hf11' (rt_field_order fps) [] (mkDS [] [] []))
-      as (mss & Hmss & Hdec).
-    { cbn [app]. eapply Permutation_NoDup; [apply Permutation_map, Permutation_sym, Hperm|exact Hnd]. }
-    { cbn [app]. intros p Hp. eapply Permutation_in; eassumption. }
-    { split; [|split].
-      - intros k Hk. cbn [ds_fs msg_fget] in Hk. congruence.
-      - intros k [].
-      - intros i []. }
-    assert (Hmembers : json_members cd o S nm (to_json_msg cd o S nm lim f) tid fs = JOk (concat mss)).
-    { unfold json_members. fold fps. rewrite Hmss. reflexivity. }
-    assert (Hdecoded : dec_ordinary cd S nm (of_json_msg cd S nm f) tid false (concat mss) = JOk (VMsg (map sp fs) [])).
-    { unfold dec_ordinary. fold fps. specialize (Hdec []). rewrite app_nil_r in Hdec. rewrite Hdec.
-      cbn [dec_members jbind]. rewrite (fold_jstep_fs cd o nm (to_json_msg cd o S nm lim f) fs). cbn [ds_fs].
-      erewrite ins_all_pairs_eq; [reflexivity|exact Hnd|exact Hpos|exact Hs| |exact Hperm].
-      intros k vs Hin. destruct (Hchunks k vs Hin) as (p & Hp & Hk & Hv).
-      split; [eapply jvalid_field_nonempty, Hv|]. exists p. split; assumption. }
-    unfold json_core in Hcore. rewrite forallb_forall in Hcore.
-    assert (Hcw := Hcore tid ltac:(apply in_seq; lia)). cbn zeta in Hcw.
+    assert (Hrec : forall tid v, json_valid true (o_emit_unpop o) S nm f tid v = true ->
+              exists j, to_json_msg cd o S nm lim f tid v = JOk j /\ (is_jnull j = true -> mn_wkt (nm_msg nm tid) = 7) /\
+                        of_json_msg cd S nm f tid j = JOk (strip_unknown v)).
+    { intros t x Hx. destruct (IH t x Hx) as (j & Hj & Hnn & Hd). exists j. split; [exact Hj|]. split; [|exact Hd].
+      rewrite Hnn. discriminate. }
+    destruct (json_ordinary_rt _ _ _ Hrec tid fs Hlt) as (ms & Hmembers & Hdecoded); try assumption.
+    { intros p _ t _. destruct (core_wkt t) as [E|E]; rewrite E; discriminate. }
     unfold json_msg_body, of_json_body.
-    destruct (mn_wkt (nm_msg nm tid) =? 0) eqn:E0.
-    - apply N.eqb_eq in E0. rewrite E0. rewrite Hmembers. cbn [jbind].
+    destruct (core_wkt tid) as [E0|E9].
+    - rewrite E0. rewrite Hmembers. cbn [jbind].
       eexists. split; [reflexivity|]. split; [reflexivity|]. exact Hdecoded.
-    - cbn [orb] in Hcw. apply andb_prop in Hcw. destruct Hcw as [E9 Hnofields]. apply N.eqb_eq in E9. rewrite E9.
-      rewrite Hmembers. cbn [jbind]. eexists. split; [reflexivity|]. split; [reflexivity|].
+    - rewrite E9. rewrite Hmembers. cbn [jbind]. eexists. split; [reflexivity|]. split; [reflexivity|].
       (* Empty: no fields, hence no members *)
-      fold fps in Hnofields. destruct fps as [|? ?] eqn:Efps; [|discriminate].
-      assert (mss = []) as ->.
-      { unfold rt_field_order in Hmss. cbn in Hmss. inversion Hmss. reflexivity. }
-      cbn [concat dec_empty].
-      destruct fs as [|[k vs] r]; [reflexivity|].
-      destruct (Hchunks k vs (or_introl eq_refl)) as (p & [] & _).
+      unfold json_core in Hcore. rewrite forallb_forall in Hcore.
+      assert (Hcw := Hcore tid ltac:(apply in_seq; lia)). cbn zeta in Hcw. rewrite E9 in Hcw.
+      cbn [N.eqb Pos.eqb orb andb] in Hcw.
+      unfold json_members in Hmembers. unfold dec_ordinary in Hdecoded.
+      destruct (rt_fields S nm tid) as [|? ?] eqn:Efps; [|discriminate].
+      unfold rt_field_order in Hmembers. cbn in Hmembers. inversion Hmembers; subst ms.
+      cbn [dec_empty]. cbn in Hdecoded. exact Hdecoded.
   Qed.
 End JMain.
 
